@@ -20,7 +20,6 @@ CONSTANTS Kinds,      \* credential kinds used in family A
 H1 == <<104, 49>>
 H2 == <<104, 50>>
 H3 == <<104, 51>>
-S(h, tail) == h \o tail
 Form(f, h) == CASE f = 1 -> h                                    \* h
                 [] f = 2 -> HTTP \o h \o <<47, 112>>              \* http://h/p
                 [] f = 3 -> HTTPS \o h                            \* https://h
@@ -37,7 +36,7 @@ Entry(k, kd, j) ==
   CASE kd = "up"     -> [Blank(k) EXCEPT !.username = <<117, D(j)>>, !.password = <<112, D(j)>>]
     [] kd = "auth"   -> [Blank(k) EXCEPT !.auth = B64Encode(<<98, D(j), 58, 115, 58, 120>>)]          \* bj:s:x
     [] kd = "authe"  -> [Blank(k) EXCEPT !.auth = B64Encode(<<97, D(j), 58>>)]                        \* aj:
-    [] kd = "authn"  -> [Blank(k) EXCEPT !.auth = B64Encode(<<110, D(j), 58, 0, 119, 0, 0>>)]         \* nj:\0w\0\0
+    [] kd = "authn"  -> [Blank(k) EXCEPT !.auth = B64Encode(<<110, D(j), 58, 0, 119, 58, 122, 0, 0>>)] \* nj:\0w:z\0\0
     [] kd = "authu"  -> [Blank(k) EXCEPT !.auth = B64Encode(<<99, D(j), 58, 113>>),                   \* cj:q  + username
                                          !.username = <<117, D(j)>>, !.password = <<112>>]
     [] kd = "idt"    -> [Blank(k) EXCEPT !.identitytoken = <<116, D(j)>>]
